@@ -210,6 +210,18 @@ Theorem C12_distinct_crs_shape_unequal :
 Proof. intros crs_eq a b [E | E]; [apply area_eq_crs | apply area_eq_shape]; exact E. Qed.
 Print Assumptions C12_distinct_crs_shape_unequal.
 
+(* a different CRS (pyproj says the two are not equal): unequal, and another digest *)
+Theorem C12_distinct_crs :
+  forall (D : Type) (H : list (tok R) -> D), (forall x y, H x = H y -> x = y) ->
+  forall (crs_eq : Z -> Z -> bool), (forall t, crs_eq t t = true) ->
+  forall a b : harea R, crs_eq (h_crs a) (h_crs b) = false ->
+  area_eq RO crs_eq a b = false /\ H (area_image RO a) <> H (area_image RO b).
+Proof.
+  intros D H Hinj crs_eq Hrefl a b E. split; [apply area_eq_crs; exact E|].
+  apply area_distinct; [exact Hinj|]. left. intros Et. rewrite Et, Hrefl in E. discriminate.
+Qed.
+Print Assumptions C12_distinct_crs.
+
 (* swaths (numpy / xarray over numpy): a coordinate beyond the tolerance *)
 Theorem C12_distinct_swath :
   forall (D : Type) (H : list (tok R) -> D), (forall x y, H x = H y -> x = y) ->
@@ -242,6 +254,16 @@ Proof.
   split; [reflexivity|]. split; [|reflexivity]. apply swath_eq_shape; reflexivity.
 Qed.
 Print Assumptions C12_distinct_swath_shape_digest_refuted.
+
+(* xarray-over-dask swaths are compared and hashed by their dask names: == holds exactly when the digests agree *)
+Theorem C12_dask_swath_eq_iff_digest :
+  forall (T : Type) (OP : ops T) (D : Type) (H : list (tok T) -> D), (forall x y, H x = H y -> x = y) ->
+  forall a b : swath T, s_kind a = 2 -> s_kind b = 2 ->
+  (swath_eq OP a b = true <-> H (swath_image a) = H (swath_image b)).
+Proof.
+  intros T OP D H Hinj a b Ha Hb. rewrite (dask_swath_eq_iff_image OP a b Ha Hb). split; [intros ->; reflexivity | apply Hinj].
+Qed.
+Print Assumptions C12_dask_swath_eq_iff_digest.
 
 (* ------------------------------------------------------------------------------------------------
    6. resampler cache keys: source digest + target digest + json(kwargs) *)
